@@ -128,7 +128,14 @@ func shapeOf(e parser.Expr, o parser.Options) string {
 		if d == nil {
 			return
 		}
-		if d.Wrapped && (!o.ExperimentalDurationExpr || beforeOp) {
+		// durexpr-offset-absorbs-following-binop: the printed offset duration expression starts with "(" (only
+		// then the grammar reads it through offset_duration_expr: duration_expr, which continues over + - * / % ^)
+		// and the selector is directly followed by an arithmetic operator. In the source a later modifier
+		// (`@ ..`, anchored/smoothed) or the `+( .. )` form ended the duration; the printer emits `offset` last.
+		if beforeOp && strings.HasPrefix(d.String(), "(") {
+			set("durexpr-offset-absorbs-following-binop")
+		}
+		if d.Wrapped && !o.ExperimentalDurationExpr {
 			set("offset-unary-plus-paren-dropped")
 		}
 		if !d.Wrapped && d.Op == parser.ADD && d.LHS == nil {
@@ -439,6 +446,9 @@ func main() {
 	// `offset +( .. )` without the duration-expression flag
 	for _, s := range []string{`foo offset +(5)`, `foo offset +(5m)`, `foo[5m] offset +(5m)`, `foo[5m:] offset +(1)`, `foo offset -(5m)`} {
 		runText(s, parser.Options{}, "corpus-finding")
+	}
+	for _, s := range []string{`foo offset (1m) @ 10 + 5`, `foo offset (1m) @ 10 + bar`, `foo offset (0x10) + 30 - 1h30m @ end() + on(a) bar offset 1.5`, `-foo offset (step()) @ start() ^ 2`} {
+		runText(s, parser.Options{ExperimentalDurationExpr: true}, "corpus-finding")
 	}
 	for _, s := range []string{`foo offset +(1m) + bar`, `foo @ 10 offset +(range()) * 2`, `foo offset +range()`, `foo[5m] offset +step()`, `foo[5m:] offset +min_of(1m, 2m)`} {
 		runText(s, parser.Options{ExperimentalDurationExpr: true}, "corpus-finding")
